@@ -109,7 +109,14 @@ def install(ref):
         i = s_find(s, k)
         if i is not None: del s.items[i]
         return NIL
-    st = {"new": s_new, "add": s_add, "from_list": s_from_list, "contains": s_contains, "remove": s_remove, "len": l_len}
+    def s_map(s, f):
+        out = RSet()
+        for x in list(s.items): s_add(out, ref.call(f, [x]))
+        return out
+    def s_for_each(s, f):
+        for x in list(s.items): ref.call(f, [x])
+        return NIL
+    st = {"new": s_new, "add": s_add, "from_list": s_from_list, "contains": s_contains, "remove": s_remove, "len": l_len, "map": s_map, "for_each": s_for_each}
 
     # ---- maybe
     def is_just(m): return m.name == "Just"
